@@ -164,6 +164,12 @@ try:
 except ImportError:
     pass
 
+try:
+    import gen_captures
+    MODULES['Captures'] = gen_captures.generate
+except ImportError:
+    pass
+
 def main():
     args = sys.argv[1:]
     repo = '/repo'
